@@ -304,7 +304,14 @@ def producer_history(rnd):
     for i in range(len(calls)):
         if rnd.random() < 0.12:
             errors[str(i)] = rnd.choice([6, 3])
-    return {"kind": kind, "random_start": random_start, "calls": calls, "errors": errors}
+    # topic-metadata outages at arbitrary cycle positions: before these calls metadata_error_for_topic(topic) turns non-zero
+    # and stays so across 1..3 reloads (>= 2: the back-off branch of Producer._next_partition, producer.py:316-334),
+    # then clears with the same list (or with the changed list the history has at that call)
+    outages = {}
+    for i in range(1, len(calls)):
+        if rnd.random() < 0.15 and str(i) not in errors:
+            outages[str(i)] = rnd.choice([1, 2, 2, 3])
+    return {"kind": kind, "random_start": random_start, "calls": calls, "errors": errors, "outages": outages}
 
 
 class StandInClient(object):
@@ -314,12 +321,19 @@ class StandInClient(object):
         self.topic_partitions = {}
         self._api_versions = 0
         self.sent = []
+        self.outage = {}
+        self.reloads_during_outage = 0
 
     def metadata_error_for_topic(self, topic):
-        return 0
+        # a topic-metadata OUTAGE: the error (LeaderNotAvailable) persists until `outage[topic]` reloads have been made
+        return 5 if self.outage.get(topic, 0) > 0 else 0
 
     def load_metadata_for_topics(self, *topics):
         from twisted.internet import defer
+        for t in topics:
+            if self.outage.get(t, 0) > 0:
+                self.outage[t] -= 1
+                self.reloads_during_outage += 1
         return defer.succeed(True)
 
     def reset_topic_metadata(self, *topics):
@@ -353,7 +367,15 @@ def impl_producer(hist, draws):
             client.topic_partitions[topic] = list(parts)
             n0, s0 = len(drawn), len(client.sent)
             client.fail_next = int(hist.get("errors", {}).get(str(ci), 0))
+            out_n = int(hist.get("outages", {}).get(str(ci), 0))
+            if out_n:
+                client.outage[topic] = out_n
             prod.send_messages(topic, key=(bytes(key) if key is not None else None), msgs=[b"m"])
+            for _ in range(8):                      # the back-off timers of the metadata retry loop
+                if len(client.sent) > s0:
+                    break
+                client.reactor.advance(60.0)
+            client.outage.pop(topic, None)
             chosen = client.sent[s0][0][1] if len(client.sent) > s0 else -1
             client.fail_next = 0
             client.reactor.advance(120.0)           # the retry (callLater(retry_interval)) goes out and succeeds
@@ -760,12 +782,14 @@ def run(ck):
     # --- 4. end to end through the real Producer (producer.py:327-335: one partitioner per topic,
     #        the CURRENT partition list of the client passed on every call)
     cases, impl, meta = [], [], []
-    for _ in range(60 * scale):
+    for _ in range(120 * scale):
         hist = producer_history(rnd)
         draws = Draws(rnd)
         per_topic = impl_producer(hist, draws)
         ck.hist("producer_histories")
         ck.hist("producer_calls_answered_NotLeader_or_UnknownTopic_then_retried", len(hist.get("errors", {})))
+        ck.hist("producer_calls_during_a_topic_metadata_outage", len(hist.get("outages", {})))
+        ck.hist("producer_outages_outlasting_the_first_reload", sum(1 for v in hist.get("outages", {}).values() if v >= 2))
         for topic, (kind, random_start, init, start0, calls, starts, hkeys, outs) in sorted(per_topic.items()):
             rp = {"history": hist, "draws": list(draws.drawn), "topic": topic, "outputs": outs, "replay_op": "producer"}
             if kind == "rr":
